@@ -20,6 +20,9 @@ COMMON_NOTE = ("Trusted: the harness's dense long-double reference, the choice-s
                "Exploration only: the property is shown to hold on the generated cases (counts in the evidence file), nothing is proved.")
 
 INFO = {
+    "C16": dict(level="exploration", assumptions=["files are written by the harness's own encoder (C printf) with header fields padded to the full card width; Fortran syntax beyond (nIw), (n{E,D,F}w.d) and the (kPn{E,D}w.d) form named in the reader's comment is not generated", "stdin is re-pointed at an in-memory stream for the readers that read stdin"], note=COMMON_NOTE,
+                technique="property-based testing (rapidcheck): write/read round trip with a structured file encoder (format descriptors, widths, case, symmetric storage, entry order) under ASan",
+                text="A generated matrix and a generated encoding are written to an in-memory file and read back through each reader; dimensions, pattern and values must equal what was written, to the printed precision."),
     "C13": dict(level="exploration", assumptions=COMMON_ASSUME + ["backward error judged with tolerance 4(n+3)eps + 8 eps*berr; columns whose denominators fall below the library's safe2 guard are not judged"], note=COMMON_NOTE,
                 technique="property-based testing (rapidcheck): long-double recomputation of the componentwise backward error of the returned X in the factored system; bit-exact differential against ?gstrs when refinement is off",
                 text="Generated expert-driver calls with and without refinement; BERR is compared with an independently computed backward error of the very X that was returned, and the no-refinement contract is checked bit for bit."),
@@ -57,7 +60,7 @@ INFO = {
 
 NOT_APPLICABLE = {}
 
-PROPS = ["C01", "C02", "C03", "C04", "C05", "C10", "C11", "C12", "C13", "C14", "C17"]
+PROPS = ["C01", "C02", "C03", "C04", "C05", "C10", "C11", "C12", "C13", "C14", "C16", "C17"]
 
 
 def all_props():
